@@ -507,6 +507,9 @@ def check(ctx):
     # reference names, is decided by the def-use analysis of C11: a None there makes the message start with 'None: '
     from . import share
     share.borrow(ctx, "C11", ("R-C11.6", "R-C11.7"), "R-C06.4", count=10)
+    # termination of the lexer's hand-written scanning loops (progress per iteration, loop tests that stay true at the end of the text) is decided
+    # by the scanner rules of C09
+    share.borrow(ctx, "C09", ("R-C09.5", "R-C09.6"), "R-C06.5", count=20)
     ctx.require_instances("R-C06.4", 30)
 
     # ---- R-C06.5 --------------------------------------------------------------------------
